@@ -30,7 +30,7 @@ MANIFEST = {
             "slice handed to the decoder, the index reset and the returned remainder are checked with linear arithmetic, which makes "
             "the state invariant inductive. Chunking then becomes irrelevant: the claim is per call and per path, not per history.",
     "note": "Does not decide what from_bytes_cobs returns for a segment (C03/C06/C07) nor T's visitor. Trusted: slice::split_at/position/copy_from_slice contracts.",
-    "technique": "static analysis: exhaustive path enumeration of a loop-free body + linear-inequality guards + who-may-write + canonical summaries",
+    "technique": "static analysis: semantic summary of feed_ref (private helpers inlined) vs a hand-written six-case specification, conditions compared by region enumeration + Fourier-Motzkin under idx <= N; who-may-write by field visibility",
 }
 
 
